@@ -39,6 +39,7 @@ unhx = lambda s: vf.bits_dbl(int(s, 16))
 
 
 def regenerate():
+    del c18_tables.NOTES[:]
     txt, tabs = c18_tables.coq_text(vf.REPO)
     vf.write_if_changed(GEN, txt)
     return tabs
@@ -390,6 +391,8 @@ def run(ck):
         ck.prove()
         finish_breaks(ck, set())
         return
+    for n in c18_tables.NOTES:
+        ck.breaks.append("source scan: " + n)
     T = Tables(tabs)
     obl = T.obligations()
     for name, ok in obl:
